@@ -387,8 +387,10 @@ class Executor(ExprMixin, CallMixin, LoopMixin, CompMixin, SqliteMixin, BuiltinM
                 if v.ty.name == "List" and v.ty.args[0] is None and ty.name == "List":
                     return Val(ty, v.t)
                 if v.ty.name == "Dict" and ty.name == "Dict" and v.ty != ty:
-                    if isinstance(node, ast.Dict) and not node.keys:
-                        # `{}`: the same (just allocated) object, its empty map recorded under the declared value type
+                    if (isinstance(node, ast.Dict) and not node.keys) or \
+                            (isinstance(node, ast.Call) and isinstance(node.func, ast.Name) and node.func.id == "dict"
+                             and not node.args and not node.keywords):
+                        # `{}` / `dict()`: the same (just allocated) object, its empty map recorded under the declared value type
                         vty = ty.args[0]
                         st.write(self._map_key(vty), z3.ArraySort(S, opt_sort(sort_of(vty)).sort), v.t, self.empty_map(vty))
                         self.log_write(self._map_key(vty))
